@@ -70,6 +70,7 @@ CONSTANTS
     FileModes,    \* subset of BOOLEAN: values of conf.FileEnabled
     Palettes,     \* {} = Record picks any kind of Kinds; else kind is a function of (palette, n)
     Kinds,        \* kinds Record may pick when Palettes = {}
+    RestartResizes, \* TRUE: Restart may come up with any size of MemSizes; FALSE: same size
     AnonModes,    \* subset of BOOLEAN: values SetConf may give conf.AnonymizeClientIP
     AllowWindow,  \* explore records inside the excluded flush-pending window
     EmitEdges     \* print labelled edges and per-state observation tables (direction A)
@@ -253,6 +254,9 @@ Init ==
     /\ pal \in (IF Palettes = {} THEN {0} ELSE Palettes)
     /\ recorded = <<>> /\ inScope = TRUE
     /\ lastReply = [st |-> "none"]
+    \* Direction A: hand the vocabulary tables to the harness, which binds
+    \* them to its concrete strings before it runs anything.
+    /\ EmitEdges => PrintT(<<"@@V", ToJson([k |-> "t", kinds |-> KindTable, terms |-> TermTable])>>)
 
 (* Push e into the ring: the oldest element is overwritten when it is full. *)
 Pushed(e) == IF Len(mem) < Cap THEN Append(mem, e) ELSE Append(Tail(mem), e)
@@ -293,6 +297,13 @@ App ==
     /\ batch # <<>>
     /\ cur' = cur \o batch /\ batch' = <<>>
     /\ UNCHANGED <<mem, rot, flushPending, memSize, fileEnabled, enabled, anon, clock, pal, recorded, inScope, lastReply>>
+
+(* Both halves of an explicit flush with nothing in between (what a caller   *)
+(* of flushLogBuffer sees); used by the trace spec.                         *)
+Flush ==
+    /\ fileEnabled /\ batch = <<>> /\ ~flushPending
+    /\ cur' = cur \o mem /\ mem' = <<>>
+    /\ UNCHANGED <<rot, batch, flushPending, memSize, fileEnabled, enabled, anon, clock, pal, recorded, inScope, lastReply>>
 
 AutoFlush ==
     /\ ~AllowWindow /\ flushPending /\ batch = <<>>
@@ -373,12 +384,14 @@ Edge(act, args) ==
 
 (* One query of the observation table: the request, whether its answer is   *)
 (* fixed ("exact") or only bounded ("sub": 400, or 200 with a subsequence   *)
-(* of `data'), and the defect signature where it applies.                   *)
+(* of `data'), and the defect signature where it applies.  Written as a     *)
+(* tuple <<older, limit, offset, term, status, class, data, oldest, sig>>   *)
+(* to keep TLC's output small.                                              *)
 Q(p) ==
     IF WellFormed(p, Log)
-    THEN [p |-> p, class |-> "exact", data |-> Reply(p, Log).data, oldest |-> Reply(p, Log).oldest,
-          sig |-> IF SkipSigApplies(p) THEN <<SkipSigReply(p)>> ELSE <<>>]
-    ELSE [p |-> p, class |-> "sub", data |-> Ids(Sel(p, Log)), oldest |-> 0, sig |-> <<>>]
+    THEN <<p.older, p.limit, p.offset, p.term, p.status, "exact", Reply(p, Log).data, Reply(p, Log).oldest,
+           IF SkipSigApplies(p) THEN <<SkipSigReply(p).data, SkipSigReply(p).oldest>> ELSE <<>> >>
+    ELSE <<p.older, p.limit, p.offset, p.term, p.status, "sub", Ids(Sel(p, Log)), 0, <<>> >>
 
 (* Cursor chain: pages of size l following reply.oldest until an empty page *)
 (* (which is part of the chain: the client only stops when it sees it).     *)
@@ -400,18 +413,25 @@ FlatSeq(ss) == FlattenSeq(ss)
 FilterFamily ==
     {<<t, "none">> : t \in Terms \ {"none"}} \cup {<<"none", s>> : s \in Statuses \ {"none"}}
     \cup {<<"sub_example", "filtered">>, <<"ip_sub", "processed">>, <<"cname_sub", "rewritten">>}
-(* Filters under which paging is compared as well.                          *)
+(* Filters under which paging is checked by TLC (PagingPartitions).         *)
 PagedFilters == {<<"none", "none">>, <<"sub_example", "none">>, <<"none", "filtered">>, <<"ip_sub", "processed">>}
+(* <<page size, filter>> combinations replayed into the real code in every  *)
+(* state: every page size on the unfiltered log, one size per filter.       *)
+ReplayedPagings ==
+    {<<l, <<"none", "none">> >> : l \in PageSizes}
+    \cup {<<2, <<"sub_example", "none">> >>, <<1, <<"none", "filtered">> >>, <<3, <<"ip_sub", "processed">> >>}
+OddPairs ==
+    {<<l, 0>> : l \in Limits \ PageSizes} \cup {<<2, o>> : o \in Offsets \ {0}}
+    \cup {<<-1, -1>>, <<Huge, 1>>, <<Huge, Huge>>, <<-5, 4>>, <<0, 1>>, <<1, Huge>>, <<3, -3>>}
 
 Observation ==
     [ full   |-> SetToSeq({Q(P(0, Huge, 0, f[1], f[2])) : f \in FilterFamily \cup {<<"none", "none">>}}),
-      deflt  |-> Q([older |-> 0, limit |-> DefaultLimit, offset |-> 0, term |-> "none", status |-> "none"]),
-      chains |-> FlatSeq(SetToSeq({Chain(0, l, f[1], f[2]) : l \in PageSizes, f \in PagedFilters})),
-      offs   |-> FlatSeq(SetToSeq({OffChain(0, l, f[1], f[2]) : l \in PageSizes, f \in PagedFilters})),
-      curs   |-> SetToSeq({Q(Plain(c, l, 0)) : c \in Cursors \ {0}, l \in {2, Huge}})
-                 \o SetToSeq({Q(P(c, 1, 1, "sub_example", "none")) : c \in Cursors \ {0}}),
-      odd    |-> SetToSeq({Q(Plain(0, l, o)) : l \in Limits, o \in Offsets}
-                          \ {Q(Plain(0, l, 0)) : l \in PageSizes}) ]
+      deflt  |-> <<Q(Plain(0, DefaultLimit, 0))>>,
+      chains |-> FlatSeq(SetToSeq({Chain(0, x[1], x[2][1], x[2][2]) : x \in ReplayedPagings})),
+      offs   |-> FlatSeq(SetToSeq({OffChain(0, x[1], x[2][1], x[2][2]) : x \in ReplayedPagings})),
+      curs   |-> SetToSeq({Q(Plain(c, 2, 0)) : c \in Cursors \ {0}})
+                 \o SetToSeq({Q(P(c, 1, 1, "sub_example", "none")) : c \in {x \in Cursors : x % 2 # 0}}),
+      odd    |-> SetToSeq({Q(Plain(0, x[1], x[2])) : x \in OddPairs}) ]
 
 Observe ==
     /\ EmitEdges /\ batch = <<>> /\ ~flushPending
@@ -426,7 +446,8 @@ Others ==
     \/ Clear /\ Edge("clear", [x |-> 0])
     \/ \E en \in BOOLEAN, an \in AnonModes :
           (en # enabled \/ an # anon) /\ SetConf(en, an) /\ Edge("conf", [en |-> en, an |-> an])
-    \/ \E m \in MemSizes : Restart(m) /\ Edge("restart", [ms |-> m])
+    \/ \E m \in (IF RestartResizes THEN MemSizes ELSE {memSize}) :
+          Restart(m) /\ Edge("restart", [ms |-> m])
 
 Next ==
     \/ \E k \in KindChoices :
@@ -449,18 +470,18 @@ Spec == Init /\ [][Next]_vars
 
 TypeOK ==
     /\ Len(mem) <= Cap /\ clock \in 0..MaxRec
-    /\ \A i \in DOMAIN Log : Log[i].ts \in 2..(2 * clock)
+    /\ LET lg == Log IN \A i \in DOMAIN lg : lg[i].ts \in 2..(2 * clock)
 
 InForce == inScope /\ Quiescent
 
 (* Timestamps grow along the stores: memory is newer than the file, the     *)
 (* file newer than the rotated file.                                        *)
-Ordered == \A i, j \in DOMAIN Log : i < j => Log[i].ts < Log[j].ts
+Ordered == LET lg == Log IN \A i \in 1..(Len(lg) - 1) : lg[i].ts < lg[i + 1].ts
 
 (* Nothing is lost or duplicated outside the exclusion window; each stored  *)
 (* entry is the recorded one, whole (PayloadPreserved).                     *)
 NothingLost      == InForce => Log = recorded
-PayloadPreserved == InForce => \A i \in DOMAIN Log : \E j \in DOMAIN recorded : recorded[j] = Log[i]
+PayloadPreserved == InForce => LET lg == Log IN \A i \in DOMAIN lg : \E j \in DOMAIN recorded : recorded[j] = lg[i]
 
 (* Selection is per entry, so a filter acts on paging only through the set  *)
 (* of entries it selects: SearchAll is checked for every single term, every *)
